@@ -1,4 +1,6 @@
 """C04 — every analytic gradient is the derivative of the value it accompanies."""
+import math
+
 import numpy
 
 from lib import common as C
@@ -94,6 +96,10 @@ def oracle(inp):
     x = gp.points_sampled[0].copy()
   if inp.get("far"):
     x = x + 3.0
+  if inp.get("very_far"):          # tens of length scales away from every observation (kernel sums of the order of 1e-10 and below)
+    x = x + float(inp["very_far"])
+  if inp.get("zero_coord") is not None:   # a coordinate that is exactly 0.0 (a bound, a one-hot entry): pow(0, k) terms of polynomial means
+    x[int(inp["zero_coord"]) % len(x)] = 0.0
   if fam == "gp":
     r = compare("gp:grad_mean", gp.compute_grad_mean_of_points(x[None, :])[0], lambda p: float(gp.compute_mean_of_points(p[None, :])[0]), x, inp)
     if r:
@@ -200,6 +206,13 @@ def gen_input(rng):
              gamma=rng.choice([0.25, 0.5, 0.3]), log_domain=rng.random() < 0.5, auto_noise=rng.random() < 0.3, sf=rng.choice([1.0, 0.1]))
   if fam == "pf":
     inp["zero_factor"] = rng.random() < 0.4
+  if fam == "gp" and rng.random() < 0.4:
+    inp["zero_coord"] = rng.randrange(8)
+    if gi["mean_idx"] is None or rng.random() < 0.5:   # a linear or a custom polynomial mean
+      d = len(gi["points"][0])
+      gi["mean_idx"] = rng.choice([[[0] * d] + [[int(a == b) for a in range(d)] for b in range(d)], [[0] * d, [2] + [0] * (d - 1)], [[1] + [0] * (d - 1)]])
+  if fam == "spe" and rng.random() < 0.5:
+    inp["very_far"] = rng.choice([7.5, 8.0, 8.4, 8.7, 9.0, 9.5, 10.0]) / math.sqrt(len(gi["points"][0]))
   if fam == "maf" and len(gi["points"][0]) < 2:
     inp["family"] = "ei"
   return inp
